@@ -141,7 +141,7 @@ def part_campaign(chk, n_per_file, n_files):
                     import shutil
                     keep = os.path.join(common.WORK, 'replays', 'C15-' + r['file'])
                     shutil.copy(path, keep)
-                    chk.report('parsing a corrupted file (%s, %s) ends with %s after %.1f s (limit %.1f s)' % (c[1], c[2], r['outcome'], r['wall_s'], r['limit_s']),
+                    chk.report('parsing a corrupted file (%s, %s) ends with %s after %.1f s (limit %.1f s), peak memory +%.0f MB' % (c[1], c[2], r['outcome'], r['wall_s'], r['limit_s'], r.get('rss_growth_mb', 0)),
                                {'kind': 'resource', 'file': keep, 'region': c[1], 'corruption': c[2], 'mode': mode, 'outcome': r})
                 elif c[3] and mode == 'lenient' and r['outcome'] != 'result':
                     import shutil
@@ -149,6 +149,64 @@ def part_campaign(chk, n_per_file, n_files):
                     shutil.copy(path, keep)
                     chk.report('intact container, lenient mode, corrupted stream (%s): the call raises %s instead of returning a result object' % (c[2], r.get('exc')),
                                {'kind': 'lenient-raises', 'file': keep, 'corruption': c[2], 'outcome': r})
+    finally:
+        import shutil
+        shutil.rmtree(outdir, ignore_errors=True)
+
+
+def part_extreme(chk, n_versions):
+    """complete battles whose otherwise unused numeric fields carry extreme but legal values (all bits set, top bit only, largest positive; infinities /
+    NaN): damaged values rather than damaged structure. Lenient mode must return a result object within the limits."""
+    from ..gen import battle as gbattle
+    rng = chk.rng
+    outdir = os.path.join(common.WORK, 'c15x-%d' % os.getpid())
+    os.makedirs(outdir, exist_ok=True)
+    versions = [v for v in battlecheck.version_dirs() if v != ('wowp', '0_3_3')]
+    if n_versions >= len(versions):
+        chosen = versions
+    else:
+        # stratified over the release history (controllers change by era), random within each stratum
+        step = len(versions) / float(n_versions)
+        chosen = [versions[min(len(versions) - 1, int(i * step + rng.random() * step))] for i in range(n_versions)]
+    files = []
+    try:
+        for which in ('ones', 'top', 'maxpos'):
+            gbattle.INT_POLICY = gbattle.int_extreme(which)
+            gbattle.FLOAT_BITS = rng.choice([(0x7f800000, 0x7ff0000000000000), (0x7fc00000, 0x7ff8000000000000), (0xff800000, 0xfff0000000000000), (0x7f7fffff, 0x7fefffffffffffff)])
+            try:
+                for g, v in chosen:
+                    b, exp, err = battlecheck.make_battle(g, v, chk.seed, rich=True)
+                    if b is None:
+                        continue
+                    ext, data = gbattle.to_container(b)
+                    p = os.path.join(outdir, 'extreme-%s-%s-%s.%s' % (which, g, v, ext))
+                    open(p, 'wb').write(data)
+                    files.append(p)
+            finally:
+                gbattle.INT_POLICY = None
+                gbattle.FLOAT_BITS = None
+        jobs = [(files[i:i + 6], 'lenient') for i in range(0, len(files), 6)]
+        for files_, mode, out, died in common.pmap(_batch, jobs):
+            done = {r['file'] for r in out}
+            if died:
+                culprit = next((f for f in files_ if os.path.basename(f) not in done), None)
+                keep = None
+                if culprit:
+                    import shutil
+                    keep = os.path.join(common.WORK, 'replays', 'C15-crash-' + os.path.basename(culprit))
+                    shutil.copy(culprit, keep)
+                chk.report('the parser process is killed or hangs on a battle with extreme field values (%s): %s' % (os.path.basename(culprit or '?'), died),
+                           {'kind': 'crash-extreme', 'file': keep, 'mode': mode})
+            for r in out:
+                chk.count((r['file'], mode), nontrivial=True)
+                chk.dist('extreme:%s' % r['outcome'])
+                if r['outcome'] != 'result':
+                    import shutil
+                    keep = os.path.join(common.WORK, 'replays', 'C15-' + r['file'])
+                    shutil.copy(os.path.join(outdir, r['file']), keep)
+                    chk.report('a battle with extreme but legal field values (%s) ends with %s (%s) after %.1f s CPU, peak memory +%.0f MB, for a %.3f MB file' % (
+                        r['file'], r['outcome'], r.get('exc'), r.get('cpu_s', 0), r.get('rss_growth_mb', 0), r.get('size_mb', 0)),
+                        {'kind': 'extreme', 'file': keep, 'mode': mode, 'outcome': r})
     finally:
         import shutil
         shutil.rmtree(outdir, ignore_errors=True)
@@ -209,10 +267,11 @@ def part_streams(chk, drv, n_sets):
 def run(chk, drv):
     quick = chk.tier == 'quick'
     chk.cov['rule'] = ('corruptions (kind x position x size; region header / ciphertext / decoded stream) of recordings and synthetic battles, each '
-                       'parse under RLIMIT_AS 3 GiB and a CPU-time limit of 20 s + 60 s/MB (wall clock 8x); corrupted streams of generated histories through model and '
+                       'parse under RLIMIT_AS 3 GiB and a CPU-time limit of 20 s + 60 s/MB (wall clock 8x); battles with extreme field values; corrupted streams of generated histories through model and '
                        'implementation; NoZeroWidth on every bundled set. Non-trivial: all; distinct by (file, mode).')
     part_zero_width(chk)
     part_campaign(chk, 40 if quick else 1500, 5 if quick else 10)
+    part_extreme(chk, 16 if quick else 1000)
     part_streams(chk, drv, 12 if quick else 300)
     chk.assumptions += ['wall time and memory are measured, not proved; zlib, pickle and json costs are external']
 
